@@ -33,7 +33,7 @@ THEOREMS: Dict[str, str] = {
     "C12_alt_list": "full",
     "C12_alt_forms_value": "full",
     "C12_assert_cannot_fail_exact": "full",
-    "C12_assert_cannot_fail_float_partial": "partial",
+    "C12_assert_cannot_fail_float": "full",
     "C12_equal_amounts_exact_partial": "partial",
     "C12_unequal_across_kinds": "full",
     "C12_ex_names": "example",
@@ -41,6 +41,7 @@ THEOREMS: Dict[str, str] = {
     "C12_ex_scanner": "example",
     "C12_ex_spelled": "example",
     "C12_ex_convert": "example",
+    "C12_ex_float": "example",
     "C12_ex_equal": "example",
     "C12_ex_alt": "example",
 }
